@@ -1529,11 +1529,27 @@ pub fn frag_size_options(mut modifier: String, mut zeroes: i32) -> (Option<human
     return dict(functions=[r], dropped=[d], assumptions=['humansize: BINARY = 1024-based with KiB.. units, DECIMAL = 1000-based with kB.., WINDOWS = 1024-based with KB.. units; FixedAt fixes the unit'])
 
 
+def unit_outputformat(inj, scratch):
+    rel = 'src/query.rs'
+    s = src(rel, scratch)
+    inj.append(rel, H('query.kani.rs'))
+    return dict(functions=[fn_record(s, 'from', 'K', impl='OutputFormat', how='whole real function; postcondition asserted over every documented format name in three letter cases in an appended harness')], dropped=[])
+
+
 def unit_functionnames(inj, scratch):
     rel = 'src/function.rs'
     s = src(rel, scratch)
-    inj.append(rel, H('functionnames.kani.rs'))
+    # every variant of `enum Function` (the build has the default features on linux, so cfg-gated variants exist)
+    it_e = s.item('enum', 'Function')
+    variants = [m.group(1) for m in (re.match(r'\s*(\w+),?\s*$', ln) for ln in s.mask[it_e['open'] + 1:it_e['close']].split('\n')) if m]
+    if len(variants) < 40:
+        raise AnchorLost('enum Function: could not enumerate variants')
+    arms = ' '.join(f'{i} => Function::{v},' for i, v in enumerate(variants[:-1]))
+    gen = (f'    pub const N_FUNCTIONS: u8 = {len(variants)};\n'
+           f'    pub fn function_at(k: u8) -> Function {{ match k {{ {arms} _ => Function::{variants[-1]} }} }}\n')
+    inj.append(rel, H('functionnames.kani.rs').replace('/*GENERATED_FUNCTION_TABLE*/', gen))
     impl = s.item('impl', r'FromStr\s+for\s+Function')
     it = s.item('fn', 'from_str', (impl['open'], impl['close']))
     return dict(functions=[{'fn': 'Function::from_str', 'file': rel, 'engine': 'K', 'how': 'whole real function; postcondition asserted over every documented alias in an appended harness',
-                            'sha256_16': sha(s.text_of(it))}], dropped=[])
+                            'sha256_16': sha(s.text_of(it))},
+                           fn_record(s, 'is_argumentless_function', 'K', impl='Function', how='whole real function; postcondition asserted in an appended harness over every enum variant (table generated from the enum on every run)')], dropped=[])
